@@ -512,12 +512,16 @@ def wl_columns(ctx, rng, case_no):
     for W in widths_for(rng, m, extra=(widest * 2 + 3, widest * 3 + 6)):
         console = consoles.layout_console(W)
         ctx.count("mon.columns")
+        # (a str item is console markup: a token that happens to look like a tag - "[m]..." - is handed over as a Text,
+        # which is taken literally; the others go in as plain strings, the common way)
+        from rich.text import Text as _Text
+        items = [_Text(t) if ("[" in t or "\\" in t or ":" in t) else t for t in tokens]
         if via_add:
             cols = Columns(None, **opts)
-            for t in tokens:
+            for t in items:
                 cols.add_renderable(t)
         else:
-            cols = Columns(list(tokens), **opts)
+            cols = Columns(list(items), **opts)
         g = grid(console, cols)
         lines = [gtext(l) for l in g]
         wit = {"tokens": tokens, "options": opts, "width": W, "lines": lines[:40]}
